@@ -212,6 +212,20 @@ def registry():
     coll('dba_loop[c as given]', 'np', lambda S: dtw_barycenter.dba_loop(S, c=S[0], max_it=2, use_c=False))
     coll('dba_loop', 'np', lambda S: dtw_barycenter.dba_loop(S, c=first(S), max_it=2, use_c=False))
     coll('dba_loop(use_c)', 'c', lambda S: dtw_barycenter.dba_loop(S, c=first(S), max_it=2, use_c=True))
+    def asf(a):
+        # the average comes back in the type of the initial average (array.array / ndarray): compare the numbers
+        return np.asarray(a, dtype=float)
+    # the loop without a convergence threshold / without an initial average (the routine starts from a series of the
+    # caller); the initial average handed over as it is (it may be a contiguous float64 array the C step could write to)
+    coll('dba_loop[c as given,thr=None](use_c)', 'c',
+         lambda S: asf(dtw_barycenter.dba_loop(S, c=S[0], max_it=2, thr=None, use_c=True)))
+    coll('dba_loop[c=None,thr=None](use_c)', 'c',
+         lambda S: asf(dtw_barycenter.dba_loop(S, c=None, max_it=3, thr=None, use_c=True)))
+    coll('dba_loop[c=None,keep](use_c)', 'c',
+         lambda S: (lambda r: (asf(r[0]), [asf(a) for a in r[1]]))(
+             dtw_barycenter.dba_loop(S, c=None, max_it=2, keep_averages=True, use_c=True)))
+    coll('dba_loop[c=None,thr=None]', 'np',
+         lambda S: asf(dtw_barycenter.dba_loop(S, c=None, max_it=3, thr=None, use_c=False)))
 
     def search(S, use_c):
         from dtaidistance.util import SeriesContainer
@@ -248,7 +262,8 @@ NDIM_NAMES = ['dtw_ndim.distance', 'dtw_ndim.distance_fast', 'dtw_ndim.warping_p
 SERIES_ND = ['ndarray', 'F', 'strided', 'reversed', 'Tview', 'ndarray']
 COLL_NAMES = ['dtw.distance_matrix', 'dtw.distance_matrix[block]', 'dtw.distance_matrix_fast',
               'dtw.distance_matrix(use_c,compact)', 'dba', 'dba(use_c)', 'dba_loop', 'dba_loop(use_c)', 'dba[c as given]',
-              'dba_loop[c as given]', 'subsequence_search',
+              'dba_loop[c as given]', 'dba_loop[c as given,thr=None](use_c)', 'dba_loop[c=None,thr=None](use_c)',
+              'dba_loop[c=None,keep](use_c)', 'dba_loop[c=None,thr=None]', 'subsequence_search',
               'subsequence_search(use_c)', 'Hierarchical.fit', 'KMeans.fit', 'KMeans.fit(use_c)']
 _ENG = None
 
